@@ -182,8 +182,12 @@ def do_trace(ctx, fname, argspecs, k, r, y, tmpdir):
     if os.path.exists(path):
         os.unlink(path)
     store = SQLiteStore.make_store(path)
-    store.add([t])
-    store.conn.close()
+    try:
+        store.add([t])
+    except Exception as e:
+        return ctx.fail(f"C08/trace-store-add-raises:{type(e).__name__}", spec, f"SQLiteStore.add of a trace whose row encodes fine: {e!r}")
+    finally:
+        store.conn.close()
     store2 = SQLiteStore.make_store(path)
     rows = store2.filter(f.__module__, f.__qualname__)
     store2.conn.close()
@@ -312,6 +316,23 @@ def shard(ctx):
         core.run_hypothesis(ctx, f2, 300 if q else 6000, salt=2)
         core.run_hypothesis(ctx, f3, 60 if q else 800, salt=3)
         # exhaustive: every fixture function x 9 return/yield combinations
+        if ctx.shard == 2 % ctx.nshards:
+            # user classes whose names coincide with builtin types that `builtins` does not export under that name
+            from typing import Dict, List, Optional, Type
+            for cls in (fx_basic.NoneType, fx_basic.mappingproxy, fx_basic.NotImplementedType):
+                for T in (cls, Type[cls], Optional[cls], List[cls], Dict[str, Optional[cls]], Union[cls, type(None), int]):
+                    spec = ["NAMESAKE", cls.__name__, repr(T)]
+                    ctx.case(spec, True, ["builtin-namesake-class"])
+                    try:
+                        check_type(ctx, spec, T, "grammar")
+                    except core.Violation as v:
+                        ctx.record_violation(v.signature, v.spec, v.message)
+            # a dict key with a lone surrogate (what os.fsdecode gives for a non-UTF-8 file name) as a TypedDict field name
+            for k_ in (0, 2):
+                try:
+                    do_trace(ctx, "plain", [["dict", [[["lit", "caf\u00e9"], ["lit", 0]], [["lit", "\udc80name"], ["lit", "s"]]]], ["lit", 0]], k_, "type", "absent", tmpdir)
+                except core.Violation as v:
+                    ctx.record_violation(v.signature, v.spec, v.message)
         if ctx.shard == 1 % ctx.nshards:
             reimport_history(ctx, tmpdir, 0)
             check_type(ctx, ["V", [MQ_DICT], 2, "merge"], tinfer.infer([vals.build(MQ_DICT), vals.build(["list", [MQ_DICT]])], 2), "inferred")
